@@ -340,7 +340,9 @@ fn random_scenario(rng: &mut StdRng, s: &mut Session, idx: usize) {
     s.out.push(json!({"kind": "reset", "id": s.scen, "principals": np}));
     let names = [format!("alice{}", idx), format!("bob{}", idx), format!("carol{}", idx)];
     // every principal knows only its own passwords (two per principal); account names are free for whoever registers first
-    let pw_of = |p: usize, k: usize| format!("pw-{}-{}", ["A", "B", "C"][p], k);
+    // the two passwords of a person share a prefix longer than 64 bytes and differ only in the tail; the "wrong" password
+    // tried against the own account is always the OTHER own one (anything that looks at a prefix only accepts it)
+    let pw_of = |p: usize, k: usize| format!("pw-{}-correct-horse-battery-staple-0123456789-abcdefghijklmnopqrstuvwxyz-{}-tail{}", ["A", "B", "C"][p], idx % 7, k);
     let mut cur_pw: Vec<String> = (0..3).map(|p| pw_of(p, 0)).collect();
     let mut cur_name: Vec<String> = (0..3).map(|p| names[p].clone()).collect();
     let pnames = [format!("P{}", idx), format!("Q{}", idx)];
@@ -373,7 +375,8 @@ fn random_scenario(rng: &mut StdRng, s: &mut Session, idx: usize) {
             if r < 6 {
                 s.req(who, "login", json!({"username": cur_name[p], "password": cur_pw[p]}));
             } else if r < 8 {
-                s.req(who, "login", json!({"username": cur_name[p], "password": "wrong-password"}));
+                let other = if cur_pw[p] == pw_of(p, 0) { pw_of(p, 1) } else { pw_of(p, 0) };
+                s.req(who, "login", json!({"username": cur_name[p], "password": if rng.gen_bool(0.7) { other } else { cur_pw[p][..64].to_string() }}));
             } else {
                 let a = (p + 1 + rng.gen_range(0..2)) % 3;
                 s.req(who, "login", json!({"username": cur_name[a], "password": cur_pw[p]}));
